@@ -157,8 +157,9 @@ CHECKS = {
              "manager, session and region level and every cap name is looked up in every region. The Seed request/response rewriting is additionally enumerated "
              "exhaustively over viewer lists x simulator grants behind 9 prefixes through the real event manager.",
         note="The simulator grants only names in the upstream request; Seed URLs unique per region; a live one-shot URL is not registered again; a URL extending several "
-             "live grants may resolve to any of them; plain asset caps may resolve with region/session None as documented; llsd XML, mitmproxy state serialisation "
-             "and in-memory queue stand-ins trusted."),
+             "live grants may resolve to any of them ('extends' is textual), except wrapper URLs which must each resolve to their own region and session; an exception "
+             "escaping the looked-up APIs is a violation; plain asset caps may resolve with region/session None as documented; llsd XML, mitmproxy state "
+             "serialisation and in-memory queue stand-ins trusted."),
     "C09": dict(
         category="exploration", design_ref="DESIGN.md §4 C09",
         technique="bounded-exhaustive enumeration over every registry entry x context value x {object, pod} with forked per-time-zone workers; round-trip / fixed-point / literal-evaluation oracle",
